@@ -26,7 +26,7 @@ class C07(Check):
             "distinct_nontrivial counts distinct states reached after a refinement step")
     excluded_configs = ["dim 1 (coarsen_grid indexes a second dimension)", "noInitialSplitting=True (asserted unsupported)",
                         "coarsening version 3 (outside the documented versions 0-2)"]
-    expected_probes = ["split", "extend_only_step", "single_area_step", "refine_everything_step"]
+    expected_probes = ["split", "extend_only_step", "single_area_step", "refine_everything_step", "container_restart"]
 
     def setup(self):
         import numpy  # noqa
@@ -35,7 +35,13 @@ class C07(Check):
         DS.install_observers()
 
     def gen(self, rk, tier, idx):
-        return {"config": ES.gen_cfg(stream(rk, "cfg"), tier), "ops": []}
+        r = stream(rk, "cfg")
+        cfg = ES.gen_cfg(r, tier)
+        # 20 %: the history is interrupted by the limit mechanism and continued through the second route the API documents
+        # (a new driver call that is handed the returned container) - the areas must stay a valid tiling with valid local
+        # combinations across that seam
+        cfg["restart_limit"] = r.choice([0, 10, 25, 50, 90]) if r.random() < 0.2 else None
+        return {"config": cfg, "ops": []}
 
     def simplify(self, s):
         return ES.simplify_cfg(s)
@@ -45,7 +51,12 @@ class C07(Check):
         sim = ES.ExtendSplitSim(cfg, sched["rk"], ctx, [ES.AreaMonitor()])
         sim.build()
         try:
-            sim.perform(tol=-1.0, max_evaluations=None, stop_after=cfg["evals"])
+            if cfg.get("restart_limit") is not None:
+                ret = sim.perform(tol=-1.0, max_evaluations=cfg["restart_limit"])
+                ctx.fault("container_restart"); ctx.probe("container_restart")
+                sim.perform(tol=-1.0, max_evaluations=None, stop_after=sim.n_eval + cfg["evals"], refinement_container=ret[0])
+            else:
+                sim.perform(tol=-1.0, max_evaluations=None, stop_after=cfg["evals"])
         except DS.StopRun:
             pass
 
